@@ -9,9 +9,14 @@ package standard
 //	h.Attester = myAttester                    // optional: replace a recording fake before Start
 //	err := h.Start(slot, waitedForGenesis)     // clock at slot; standard.New(...); waits for quiescence
 //	h.Advance(); h.Reorg(b); h.HeadEvent(); h.FireJob(name); h.FireTicker(); h.Crash()
+//	h.Hold(k, on); h.ReleaseCall(k, key, ver, jk) // delaying interfaces: duty replies (att, prop), the accounts
+//	                                           // provider (acct), scheduler calls (cancel, sched, run)
 //	h.Jobs(), h.Executed(), h.Fetches()        // projections (job table incl. validators, executed duties)
+//	h.Held(), h.TakeCalls()                    // calls waiting at a delaying interface; job table changes seen
 //
-// Every stimulus returns after the controller's goroutines have finished (c03Harness.Quiesce).
+// Every stimulus returns after the controller's goroutines have finished or wait at a delaying
+// interface (c03Harness.Quiesce).  The controller is given the recording scheduler behind a gate
+// (c03GatedSched): h.Sched is the recording scheduler itself.
 
 import (
 	"context"
@@ -107,6 +112,24 @@ type c03Fetch struct {
 	Ver int    `json:"ver"`
 }
 
+// c03Parked is a call waiting at a delaying interface: a duty reply computed but not delivered (k = att,
+// prop; key = epoch, ver = version of the dependent root), an accounts lookup (acct; key = epoch), a
+// scheduler call (cancel, sched, run; key = slot, jk = kind of the job named).
+type c03Parked struct {
+	K   string `json:"k"`
+	Key uint64 `json:"key"`
+	Ver int    `json:"ver"`
+	Jk  string `json:"jk"`
+}
+
+// c03Call is a change of the job table seen by the recording scheduler: a successful ScheduleJob (add),
+// a successful CancelJob / RunJob or a start by the timer (rm).
+type c03Call struct {
+	Op string `json:"op"`
+	K  string `json:"k"`
+	N  uint64 `json:"n"`
+}
+
 type c03ProbeKey struct{}
 
 // c03Probe collects what a job would cover when its function is run with a probe context.
@@ -160,6 +183,7 @@ type c03Harness struct {
 	executed  []c03Done
 	other     []c03Done // recorded calls that are not executed duties (prepare calls, aggregations)
 	fetches   []c03Fetch
+	tableLog  []c03Call
 	calls     int64 // calls into fakes (quiescence fallback)
 	headSlot  int64 // what the scripted node reports as head slot (-1: error)
 	holdKinds map[string]bool
@@ -168,11 +192,12 @@ type c03Harness struct {
 	baseline  int
 }
 
-// c03Held is a duty reply that the scripted node has computed but not yet delivered.
+// c03Held is a call that waits at a delaying interface (see c03Parked).
 type c03Held struct {
 	K       string
 	Key     uint64
 	Ver     int
+	Jk      string
 	release chan struct{}
 }
 
@@ -243,16 +268,106 @@ func (h *c03Harness) wanted(indices []phase0.ValidatorIndex) map[uint64]bool {
 }
 
 // hold blocks the calling goroutine (after the reply has been computed) while the kind is held.
-func (h *c03Harness) hold(k string, key uint64, ver int) {
+func (h *c03Harness) hold(k string, key uint64, ver int) { h.park(k, key, ver, "") }
+
+// park makes the calling goroutine wait while interface k is delaying, until the call is released.
+func (h *c03Harness) park(k string, key uint64, ver int, jk string) {
 	h.mu.Lock()
 	if !h.holdKinds[k] {
 		h.mu.Unlock()
 		return
 	}
-	x := &c03Held{K: k, Key: key, Ver: ver, release: make(chan struct{})}
+	x := &c03Held{K: k, Key: key, Ver: ver, Jk: jk, release: make(chan struct{})}
 	h.held = append(h.held, x)
 	h.mu.Unlock()
 	<-x.release
+}
+
+// c03GatedSched is what the controller is given as its scheduler: the recording scheduler behind
+// the delaying interfaces "cancel" (CancelJob, CancelJobIfExists), "sched" (ScheduleJob of a duty's
+// first jobs) and "run" (RunJob, RunJobIfExists of attestations / sync committee messages: the fast
+// track).  A delayed call takes effect on the recording scheduler when it is released.
+type c03GatedSched struct {
+	h  *c03Harness
+	in *verifsupport.Scheduler
+}
+
+func (g *c03GatedSched) gate(op string, name string) {
+	k, n := c03ParseName(name)
+	switch op {
+	case "sched":
+		if k != "att" && k != "early" && k != "prop" && k != "syncprep" {
+			return
+		}
+	case "cancel":
+		if k != "att" && k != "early" && k != "prop" && k != "syncprep" && k != "syncmsg" {
+			return
+		}
+	case "run":
+		if k != "att" && k != "syncmsg" {
+			return
+		}
+	}
+	g.h.park(op, n, 0, k)
+}
+
+func (g *c03GatedSched) ScheduleJob(ctx context.Context, class string, name string, runtime time.Time, job scheduler.JobFunc) error {
+	g.gate("sched", name)
+	return g.in.ScheduleJob(ctx, class, name, runtime, job)
+}
+
+func (g *c03GatedSched) SchedulePeriodicJob(ctx context.Context, class string, name string, runtime scheduler.RuntimeFunc, job scheduler.JobFunc) error {
+	return g.in.SchedulePeriodicJob(ctx, class, name, runtime, job)
+}
+
+func (g *c03GatedSched) CancelJob(ctx context.Context, name string) error {
+	g.gate("cancel", name)
+	return g.in.CancelJob(ctx, name)
+}
+
+func (g *c03GatedSched) CancelJobIfExists(ctx context.Context, name string) {
+	g.gate("cancel", name)
+	g.in.CancelJobIfExists(ctx, name)
+}
+
+func (g *c03GatedSched) CancelJobs(ctx context.Context, prefix string) { g.in.CancelJobs(ctx, prefix) }
+
+func (g *c03GatedSched) RunJob(ctx context.Context, name string) error {
+	g.gate("run", name)
+	return g.in.RunJob(ctx, name)
+}
+
+func (g *c03GatedSched) JobExists(ctx context.Context, name string) bool { return g.in.JobExists(ctx, name) }
+
+func (g *c03GatedSched) RunJobIfExists(ctx context.Context, name string) {
+	g.gate("run", name)
+	g.in.RunJobIfExists(ctx, name)
+}
+
+func (g *c03GatedSched) ListJobs(ctx context.Context) []string { return g.in.ListJobs(ctx) }
+
+var _ scheduler.Service = (*c03GatedSched)(nil)
+
+// noteTable records a change of the job table (called under the recording scheduler's lock).
+func (h *c03Harness) noteTable(op string, name string) {
+	k, n := c03ParseName(name)
+	switch k {
+	case "att", "prop", "early", "syncprep", "syncmsg", "prepepoch":
+	default:
+		return
+	}
+	h.mu.Lock()
+	h.tableLog = append(h.tableLog, c03Call{Op: op, K: k, N: n})
+	h.mu.Unlock()
+}
+
+// TakeCalls returns the changes of the job table since the last call, in the order they were made.
+func (h *c03Harness) TakeCalls() []c03Call {
+	h.mu.Lock()
+	defer h.mu.Unlock()
+	res := append([]c03Call{}, h.tableLog...)
+	h.tableLog = nil
+	return res
 }
 
 func (h *c03Harness) AttesterDuties(_ context.Context, opts *api.AttesterDutiesOpts) (*api.Response[[]*apiv1.AttesterDuty], error) {
@@ -368,11 +483,12 @@ func (h *c03Harness) accounts(indices []phase0.ValidatorIndex, all bool) map[pha
 	return res
 }
 
-func (h *c03Harness) ValidatingAccountsForEpoch(ctx context.Context, _ phase0.Epoch) (map[phase0.ValidatorIndex]e2wtypes.Account, error) {
+func (h *c03Harness) ValidatingAccountsForEpoch(ctx context.Context, epoch phase0.Epoch) (map[phase0.ValidatorIndex]e2wtypes.Account, error) {
 	if c03ProbeOf(ctx) != nil {
 		return nil, errC03Probe
 	}
 	h.note()
+	h.park("acct", uint64(epoch), 0, "")
 	return h.accounts(nil, true), nil
 }
 
@@ -513,6 +629,21 @@ func (h *c03Harness) Now() uint64 { return uint64(h.ChainTime.CurrentSlot()) }
 func (h *c03Harness) Start(slot uint64, waitedForGenesis bool) error {
 	h.ChainTime.SetSlot(slot)
 	h.Sched = verifsupport.NewScheduler()
+	h.Sched.OnCall = func(op string, name string, _ time.Time, err error) {
+		if err != nil {
+			return
+		}
+		switch op {
+		case "ScheduleJob":
+			h.noteTable("add", name)
+		case "CancelJob", "RunJob":
+			h.noteTable("rm", name)
+		}
+	}
+	h.mu.Lock()
+	h.holdKinds = map[string]bool{}
+	h.tableLog = nil
+	h.mu.Unlock()
 	h.handlers = map[string]eth2client.EventHandlerFunc{}
 	syncCommitteePreparationEpochs = h.Cfg.Prep
 	h.baseline = runtime.NumGoroutine()
@@ -528,7 +659,7 @@ func (h *c03Harness) Start(slot uint64, waitedForGenesis bool) error {
 		WithEventsProvider(h),
 		WithValidatingAccountsProvider(h),
 		WithProposalsPreparer(h),
-		WithScheduler(h.Sched),
+		WithScheduler(&c03GatedSched{h: h, in: h.Sched}),
 		WithAttester(h.Attester),
 		WithSyncCommitteeMessenger(h.Messenger),
 		WithSyncCommitteeAggregator(h.SyncAggregator),
@@ -563,6 +694,9 @@ func (h *c03Harness) Start(slot uint64, waitedForGenesis bool) error {
 func (h *c03Harness) Crash() {
 	h.Svc = nil
 	h.Sched = nil
+	h.mu.Lock()
+	h.tableLog = nil
+	h.mu.Unlock()
 }
 
 // Advance moves the clock to the next slot.
@@ -583,8 +717,9 @@ func (h *c03Harness) HeadEvent() error {
 	h.mu.Lock()
 	prev := c03Root(e-1, h.ver(e-1))
 	cur := c03Root(e, h.ver(e))
+	delayedRun := h.holdKinds["run"]
 	h.mu.Unlock()
-	h.handlers["head"](&apiv1.Event{
+	ev := &apiv1.Event{
 		Topic: "head",
 		Data: &apiv1.HeadEvent{
 			Slot:                      phase0.Slot(slot),
@@ -592,7 +727,13 @@ func (h *c03Harness) HeadEvent() error {
 			PreviousDutyDependentRoot: prev,
 			CurrentDutyDependentRoot:  cur,
 		},
-	})
+	}
+	if delayedRun {
+		// the handler itself fast-tracks (RunJobIfExists): it may have to wait there
+		go h.handlers["head"](ev)
+	} else {
+		h.handlers["head"](ev)
+	}
 	return h.Quiesce()
 }
 
@@ -613,35 +754,45 @@ func (h *c03Harness) SetHeadSlot(slot int64) {
 // FireJob starts the named job as the scheduler's timer would.
 func (h *c03Harness) FireJob(name string) (bool, error) {
 	h.begin()
+	if h.Sched.Get(name) != nil {
+		h.noteTable("rm", name)
+	}
 	ok := h.Sched.Fire(h.Ctx, name)
 	return ok, h.Quiesce()
 }
 
-// Hold makes the scripted node keep back replies for duty kind k (att, prop, sync) until Release.
+// Hold makes an interface delaying: the scripted node keeps back replies for duty kind k (att, prop,
+// sync), the accounts provider its answer (acct), the scheduler gate its calls (cancel, sched, run),
+// each until released.  Switching off does not release what waits already.
 func (h *c03Harness) Hold(k string, on bool) {
 	h.mu.Lock()
 	h.holdKinds[k] = on
 	h.mu.Unlock()
 }
 
-// Held lists the replies kept back, oldest first.
-func (h *c03Harness) Held() []c03Fetch {
+// Held lists the calls waiting at a delaying interface, oldest first.
+func (h *c03Harness) Held() []c03Parked {
 	h.mu.Lock()
 	defer h.mu.Unlock()
-	res := make([]c03Fetch, 0, len(h.held))
+	res := make([]c03Parked, 0, len(h.held))
 	for _, x := range h.held {
-		res = append(res, c03Fetch{K: x.K, Key: x.Key, Ver: x.Ver})
+		res = append(res, c03Parked{K: x.K, Key: x.Key, Ver: x.Ver, Jk: x.Jk})
 	}
 	return res
 }
 
 // Release delivers the oldest kept-back reply for (k, key) made at version ver; false if there is none.
 func (h *c03Harness) Release(k string, key uint64, ver int) (bool, error) {
+	return h.ReleaseCall(k, key, ver, "")
+}
+
+// ReleaseCall lets the oldest waiting call (k, key, ver, jk) through; false if there is none.
+func (h *c03Harness) ReleaseCall(k string, key uint64, ver int, jk string) (bool, error) {
 	h.begin()
 	h.mu.Lock()
 	var x *c03Held
 	for i, c := range h.held {
-		if c.K == k && c.Key == key && c.Ver == ver {
+		if c.K == k && c.Key == key && c.Ver == ver && c.Jk == jk {
 			x = c
 			h.held = append(h.held[:i], h.held[i+1:]...)
 			break
